@@ -256,8 +256,11 @@ impl Tracked {
         }
         let ok = Tracked::snap_ok(&a) && Tracked::snap_ok(&b) && a == b;
         if !ok {
+            // a value that was already destroyed while a consumer could still reach it is also a
+            // lifetime (C05) violation, not only an integrity (C04) one
+            let destroyed = a.state == DEAD || b.state == DEAD;
             violation(
-                "C04",
+                if destroyed { "C04,C05" } else { "C04" },
                 "payload-integrity",
                 format!("payload-integrity:{}", ctx),
                 format!(
@@ -343,4 +346,19 @@ pub fn consume(v: Tracked, ctx: &'static str) -> Seen {
     let s = v.verify_held(ctx, false);
     drop(v);
     s
+}
+
+/// intern a dynamically built property list (small closed set in practice)
+pub fn intern(v: String) -> &'static str {
+    static SET: Mutex<Vec<&'static str>> = Mutex::new(Vec::new());
+    let mut g = match SET.lock() {
+        Ok(g) => g,
+        Err(p) => p.into_inner(),
+    };
+    if let Some(x) = g.iter().find(|x| **x == v.as_str()) {
+        return x;
+    }
+    let l: &'static str = Box::leak(v.into_boxed_str());
+    g.push(l);
+    l
 }
